@@ -33,7 +33,7 @@ func TestC04T_Commitments(t *testing.T) {
 	const part = "commitments"
 	loc := common.Location{0, 0}
 	rapid.Check(t, func(t *rapid.T) {
-		n := rapid.SampledFrom([]int{1, 2, 3, 17, 126, 127, 128, 129, 130, 200, 255, 256, 257, 300}).Draw(t, "n")
+		n := rapid.SampledFrom([]int{1, 2, 3, 17, 0, 126, 127, 128, 129, 130, 200, 0, 255, 256, 257, 300}).Draw(t, "n")
 		list := make(types.Transactions, n)
 		for i := range list {
 			list[i] = c04tEtx(i, loc)
@@ -50,11 +50,18 @@ func TestC04T_Commitments(t *testing.T) {
 			return (&types.PendingEtxs{Header: wo, OutboundEtxs: l}).IsValid(trie.NewStackTrie(nil))
 		}
 		// position: any, with the boundary positions over-represented
-		pos := rapid.IntRange(0, n-1).Draw(t, "pos")
+		pos := 0
+		if n > 0 {
+			pos = rapid.IntRange(0, n-1).Draw(t, "pos")
+		}
 		if b := rapid.SampledFrom([]int{-1, -1, 0, 126, 127, 128, 129, 255, 256}).Draw(t, "boundaryPos"); b >= 0 && b < n {
 			pos = b
 		}
 		dump := map[string]any{"kind": kind, "entries": n, "position": pos}
+		if kind == "manifest" && n == 0 {
+			kind = "pending-etxs" // an empty manifest has no entry to replace
+			dump["kind"] = kind
+		}
 		if kind == "manifest" {
 			// the manifest is a list of block hashes committed by the header's manifest hash
 			man := make(types.BlockManifest, n)
@@ -79,8 +86,24 @@ func TestC04T_Commitments(t *testing.T) {
 			stats.Violation(t, part, "C04/T/committed-list-refused/"+kind, fmt.Sprintf("the %d-entry list the header commits to is refused", n), dump)
 			return
 		}
-		mut := rapid.SampledFrom([]string{"value+1", "recipient", "type", "drop", "duplicate", "swap-next"}).Draw(t, "mutation")
+		mut := rapid.SampledFrom([]string{"value+1", "recipient", "type", "drop", "duplicate", "swap-next", "append"}).Draw(t, "mutation")
 		alt := append(types.Transactions{}, list...)
+		if n == 0 || mut == "append" {
+			// entries the header does not commit to, after the committed ones (for an empty
+			// commitment: a bundle that carries transfers the block never emitted)
+			mut = "append"
+			k := rapid.SampledFrom([]int{1, 2, 129}).Draw(t, "forged")
+			for i := 0; i < k; i++ {
+				alt = append(alt, c04tEtx(n+1000+i, loc))
+			}
+			dump["mutation"], dump["forged_entries"] = mut, k
+			if valid(alt) {
+				stats.Violation(t, part, fmt.Sprintf("C04/T/altered-list-accepted/%s/%s", kind, mut), fmt.Sprintf("a list of the %d committed entries followed by %d entries the header does not commit to passes the commitment check", n, k), dump)
+				return
+			}
+			stats.Case(part, fmt.Sprintf("%s|n=%d|append%d", kind, n, k), true, "kind:"+kind, fmt.Sprintf("n:%d", n), "mut:"+mut)
+			return
+		}
 		in := list[pos]
 		to := *in.To()
 		inner := &types.ExternalTx{OriginatingTxHash: in.OriginatingTxHash(), ETXIndex: in.ETXIndex(), Gas: in.Gas(), To: &to, Value: new(big.Int).Set(in.Value()), Sender: in.ETXSender(), EtxType: in.EtxType()}
